@@ -66,6 +66,13 @@ func DateFromString(data string) (*Date, error) {
 		return nil, fmt.Errorf("Invalid date string: %s", data)
 	}
 
+	// time.Date normalises out of range values (month 13, day 32, Feb 30),
+	// a date which does not survive that is not a calendar date.
+	norm := time.Date(year, time.Month(month), day, 0, 0, 0, 0, time.UTC)
+	if norm.Year() != year || int(norm.Month()) != month || norm.Day() != day {
+		return nil, fmt.Errorf("Invalid date string: %s", data)
+	}
+
 	dd := &Date{
 		Year:  int32(year),
 		Month: int32(month),
